@@ -31,7 +31,7 @@ Section Plain.
       destruct (IH H1) as (f & h & E & ino & Hr & [P1 P2 P3 P4 P5 P6]).
       unfold run_eff in *. rewrite fold_left_app, Hr. cbn [fold_left].
       assert (G0 : get (names f) 0 = Some ino) by (rewrite P1; reflexivity).
-      destruct o as [msg| | |n|n c| | ]; try discriminate; unfold eff_step; cbn [step].
+      destruct o as [msg| | |n|n c| | |msg2]; try discriminate; unfold eff_step; cbn [step].
       + unfold emit, emit_write. rewrite P2, P3.
         destruct msg as [|b msg'].
         * rewrite P4. exists f, h, (E ++ []), ino. split; [reflexivity|]. rewrite app_nil_r.
@@ -75,7 +75,7 @@ Section External.
     forall j, get (names f) j <> None -> 0 <= j <= Nb bk.
 
   Definition ext_ok (o : op) : Prop :=
-    match o with ExtReplace n _ => 0 <= n <= Nb bk | ReopenFails | ClearFails => False | _ => True end.
+    match o with ExtReplace n _ => 0 <= n <= Nb bk | ReopenFails | ClearFails | WriteBlocked _ => False | _ => True end.
 
   Record InvX (f : fs) (h : handler) : Prop := {
     x_range : in_range f;
@@ -163,7 +163,8 @@ Section External.
     - apply Forall_app in Hok. destruct Hok as [Hok1 Hok2]. inversion Hok2 as [|? ? Ho _]; subst.
       destruct (IH Hok1) as (f & h & Hr & X).
       unfold run in *. rewrite fold_left_app, Hr. cbn [fold_left step].
-      destruct o as [msg| | |n|n c| | ]; [ | | | | | simpl in Ho; contradiction | simpl in Ho; contradiction].
+      destruct o as [msg| | |n|n c| | |msg2];
+        [ | | | | | simpl in Ho; contradiction | simpl in Ho; contradiction | simpl in Ho; contradiction].
       + unfold emit. pose proof (emit_write_X f h msg X) as X1.
         destruct (emit_write f h msg) as [f1 h1].
         destruct (h_rotating h1); [apply rollover_range; exact X1 | exists f1, h1; auto].
@@ -237,3 +238,37 @@ Proof. intros f mb bk. unfold handle_file. destruct (open_append f 0). cbn. auto
 
 Theorem config_zero_stays_zero : forall dflt, effective dflt (Some 0) = 0.
 Proof. reflexivity. Qed.
+
+(* ------------------------------------ a rotation that cannot be done (a811a35) *)
+(* the write itself is never lost, no exception comes out, and the handler stays
+   open on the file at the configured path *)
+Theorem blocked_write_kept : forall f h msg ino,
+  h_stream h = Some ino -> get (names f) 0 = Some ino -> h_append h = true ->
+  exists f' h',
+    step (Ok f h) (WriteBlocked msg) = Ok f' h' /\
+    h_stream h' = Some ino /\ get (names f') 0 = Some ino /\
+    content f' ino = content f ino ++ msg.
+Proof.
+  intros f h msg ino Hs Hn Ha. cbn [step]. unfold emit_write. rewrite Hs, Ha.
+  destruct msg as [|b m].
+  - rewrite app_nil_r.
+    destruct (h_rotating h && (0 <? h_maxbytes h) && true && (h_pos h >=? h_maxbytes h)) eqn:E;
+      rewrite Hs, E.
+    + unfold open_append. rewrite Hn. do 2 eexists. repeat split; try reflexivity. exact Hn.
+    + do 2 eexists. repeat split; try reflexivity; assumption.
+  - cbn [h_rotating h_maxbytes h_stream h_pos with_stream].
+    set (f1 := {| names := names f; inodes := set (inodes f) ino (content f ino ++ b :: m); next := next f |}).
+    assert (C1 : content f1 ino = content f ino ++ b :: m).
+    { unfold f1. rewrite content_set, Z.eqb_refl. reflexivity. }
+    destruct (h_rotating h && (0 <? h_maxbytes h) && true && (zlen (content f ino ++ b :: m) >=? h_maxbytes h)).
+    + unfold open_append. cbn [names f1]. rewrite Hn. do 2 eexists. repeat split; try reflexivity; assumption.
+    + do 2 eexists. repeat split; try reflexivity; assumption.
+Qed.
+
+Example blocked_rotation_example :
+  match run 10 1 [Write [1;2;3;4;5;6]; Write [7;8;9;10;11;12]; ExtDelete 1;
+                  WriteBlocked [13;14;15;16;17;18;19;20;21;22;23]; WriteBlocked [24;25]; Write [26]] with
+  | Ok f h => (file f 1, file f 0)
+  | Crash => (None, None)
+  end = (Some [13;14;15;16;17;18;19;20;21;22;23;24;25;26], Some []).
+Proof. vm_compute. reflexivity. Qed.
